@@ -91,7 +91,9 @@ def main():
                  "NumberToDOMString(theValue, theResult);"):
         if need not in cond:
             die("getCountString value= branch: `%s` not found" % need)
-    guard64 = "theValue >= static_cast<double>(std::numeric_limits<CountType>::max())" in cond
+    # either spelling of the conversion to double is the same guard (committed as bc9502b with `double(...)`)
+    guard64 = ("theValue >= static_cast<double>(std::numeric_limits<CountType>::max())" in cond or
+               "theValue >= double(std::numeric_limits<CountType>::max())" in cond)
     if not guard64 and "numeric_limits" in cond:
         die("getCountString value= branch: unrecognised range guard")
     out = ["/- GENERATED by translate/c17_navshape.py from src/xalanc/XSLT/ElemNumber.cpp — do not edit -/",
